@@ -251,7 +251,7 @@ class Model:
             if any(g <= h for h in self.groups):
                 mine = self.group_outs(g)
                 for n, v in names.items():
-                    if (n in mine) == outs and n not in self.dropped and self.M[n] != v:
+                    if (n in mine) == outs and self.M[n] != v:
                         return True
         return False
 
